@@ -174,6 +174,44 @@ func (o *out) c11CaseCond(dir, goFunc, mention, param, leanName string) {
 	fmt.Fprintf(o, "def %s_unavailable : Unit := ()  -- case not found in %s\n", leanName, goFunc)
 }
 
+// c11Loops: the string-scanning decision functions, translated mechanically by lib_loops.go
+// (bridge theorems `Gen.C11.f … = Yaml.f …` in Bridge/C11.lean replace their pins).
+func c11Loops(o *out) {
+	const g = "internal/encoding/yaml/goccy"
+	const v3 = "internal/encoding/yaml"
+	isPrint := Extern{Key: "unicode.IsPrint", Name: "isPrint", Type: "Nat → Bool", Res: tBool}
+	legacy := Extern{Key: "legacyStrings[]", Name: "legacy", Type: "List Nat → Bool", Res: tBool}
+	useQ := Extern{Key: "useQuote().MatchString", Name: "useQuoteMatch", Type: "List Nat → Bool", Res: tBool}
+	anyOct := Extern{Key: "rxAnyOctalYaml11().MatchString", Name: "anyOctalMatch", Type: "List Nat → Bool", Res: tBool}
+	nonStr := Extern{Key: "decodesAsNonString", Name: "decodesAsNonString", Type: "List Nat → Bool", Res: tBool}
+	goQuote := Extern{Key: "strconv.Quote", Name: "goQuote", Type: "List Nat → List Nat", Res: tStr}
+	rxInt := Extern{Key: "rxYamlInt().MatchString", Name: "yamlIntMatch", Type: "List Nat → Bool", Res: tBool}
+	rxFloat := Extern{Key: "rxYamlFloat().MatchString", Name: "yamlFloatMatch", Type: "List Nat → Bool", Res: tBool}
+	o.WriteString(LoopsPrelude)
+	nsq := &LoopFn{Dir: g, Go: "needsSingleQuoting", Lean: "needsSingleQuoting"}
+	sq := &LoopFn{Dir: g, Go: "singleQuoted", Lean: "singleQuoted"}
+	unp := &LoopFn{Dir: g, Go: "yamlUnprintable", Lean: "yamlUnprintable", Externs: []Extern{ExtDecodeRune, isPrint}}
+	bls := &LoopFn{Dir: g, Go: "blockLiteralSafe", Lean: "blockLiteralSafe", Externs: unp.Externs, Calls: []*LoopFn{unp}}
+	shq := &LoopFn{Dir: g, Go: "shouldQuote", Lean: "shouldQuote",
+		Externs: []Extern{legacy, useQ, anyOct, nonStr, ExtDecodeRune, isPrint}, Calls: []*LoopFn{unp}}
+	qs := &LoopFn{Dir: g, Go: "quoteScalar", Lean: "quoteScalar",
+		Externs: append(append([]Extern{}, shq.Externs...), goQuote), Calls: []*LoopFn{nsq, sq, unp, shq}}
+	consts := map[string]string{}
+	tp := loadPkg("cue/token")
+	for _, n := range []string{"ILLEGAL", "INT", "FLOAT"} {
+		if v, ok := tp.constVal(n); ok {
+			consts["token."+n] = v.ExactString()
+			fmt.Fprintf(o, "def token_%s : Nat := %s\n", n, v.ExactString())
+		}
+	}
+	nk := &LoopFn{Dir: g, Go: "numberKind", Lean: "numberKind", Externs: []Extern{rxInt, rxFloat}, Consts: consts, RetNat: true}
+	oct := &LoopFn{Dir: g, Go: "yaml11OctalToCUE", Lean: "yaml11OctalToCUE", Externs: []Extern{ExtDecodeRune}}
+	shq3 := &LoopFn{Dir: v3, Go: "shouldQuote", Lean: "shouldQuoteV3", Externs: []Extern{legacy, useQ}}
+	for _, f := range []*LoopFn{nsq, sq, unp, bls, shq, qs, nk, oct, shq3} {
+		o.loopFn(f)
+	}
+}
+
 func init() {
 	gens["C11"] = func(o *out) {
 		const g = "internal/encoding/yaml/goccy"
@@ -190,11 +228,11 @@ func init() {
 		o.c11StrMap(v3, "legacyStrings", "legacyStringsV3", false)
 		o.c11Regexp(v3, "useQuote", "re_useQuoteV3")
 		o.c11Regexp(v3, "rxAnyOctalYaml11", "re_rxAnyOctalYaml11V3")
-		// hand-transcribed decision functions, pinned
-		o.pins(g, "needsSingleQuoting", "singleQuoted", "quoteScalar", "encodeScalar", "shouldQuote", "yamlUnprintable",
-			"blockLiteralSafe", "decodesAsNonString", "isNumberTokenType", "singleToken", "yamlNumber", "yamlIsNumber", "quoteFlowUnsafe")
-		o.pins(g, "numberKind", "decoder.scalarString", "yaml11OctalToCUE", "decoder.intExpr", "decoder.floatExpr",
+		c11Loops(o)
+		// hand-transcribed decision functions outside the loop translator's subset, pinned
+		o.pins(g, "encodeScalar", "decodesAsNonString", "isNumberTokenType", "singleToken", "yamlNumber", "yamlIsNumber", "quoteFlowUnsafe", "stripBlankLinePadding")
+		o.pins(g, "decoder.scalarString", "decoder.intExpr", "decoder.floatExpr",
 			"decoder.makeNum", "infString", "decoder.quotedString", "decoder.integer", "decoder.float", "decoder.label", "decoder.keyLabel")
-		o.pins(v3, "shouldQuote", "encodeScalar", "setNum", "decoder.scalar", "decoder.label")
+		o.pins(v3, "encodeScalar", "setNum", "decoder.scalar", "decoder.label")
 	}
 }
